@@ -44,6 +44,21 @@ func applyStmt(s *gSchema, st Stmt) {
 	case "modifyColumn":
 		i := t.colIndex(st.Col.Name)
 		t.Cols[i] = st.Col
+	case "alterType":
+		t.Cols[t.colIndex(st.A)].Typ = st.B
+	case "setDefault", "dropNotNull":
+		i := t.colIndex(st.A)
+		drop := map[string]string{"setDefault": "default", "dropNotNull": "notnull"}[st.Kind]
+		var keep []Opt
+		for _, o := range t.Cols[i].Opts {
+			if o.Kind != drop {
+				keep = append(keep, o)
+			}
+		}
+		if st.Kind == "setDefault" {
+			keep = append(keep, st.Col.Opts[0])
+		}
+		t.Cols[i].Opts = keep
 	case "renameColumn":
 		i := t.colIndex(st.A)
 		t.Cols[i].Name = st.B
@@ -160,6 +175,17 @@ func (g *gen) randomScript(o scriptOpts, c *ctx) []Stmt {
 				continue
 			}
 			emit(Stmt{Kind: "dropColumn", T: t.Name, A: cn})
+		case k < 9 && g.dialect == "postgres" && len(t.Cols) > 0:
+			// the Postgres spellings of MODIFY COLUMN, one aspect at a time
+			cn := t.Cols[g.rng.Intn(len(t.Cols))].Name
+			switch g.rng.Intn(4) {
+			case 0:
+				emit(Stmt{Kind: "setDefault", T: t.Name, A: cn, Col: ColDef{Opts: []Opt{{Kind: "default", DTag: "num", Val: fmt.Sprint(g.rng.Intn(90))}}}})
+			case 1:
+				emit(Stmt{Kind: "dropNotNull", T: t.Name, A: cn})
+			default:
+				emit(Stmt{Kind: "alterType", T: t.Name, A: cn, B: g.typ()})
+			}
 		case k < 9 && o.modifies:
 			i := g.rng.Intn(len(t.Cols))
 			old := t.Cols[i]
